@@ -166,6 +166,9 @@ fn dump_corpus(tier: &str, path: &str) {
             texts.push(c.text);
         }
     }
+    for (_, t) in c02::position_docs(&g) {
+        texts.push(t);
+    }
     for l in c06::build(&g, false) {
         if l.class.starts_with("token-") || l.class == "truncate" {
             texts.push(l.text);
